@@ -496,14 +496,16 @@ Definition word_same (w1 w2 : word) : bool := (w1 =? w2) || (is_nan32 w1 && is_n
 
 (* Normal words: the model computes Normal() in binary64 exactly as the Go code does, so
    the words are expected to be identical; an algebraically equivalent rewrite of
-   Normal()/Normalize() may move the float32 result by a few units in the last place,
-   which still counts as agreement: same sign and patterns at most 4 apart, or both
-   zero.  Vertex words and every other byte must be identical. *)
+   Normal()/Normalize() may move a component of the unit vector by a rounding error,
+   which still counts as agreement: both finite and |difference| <= 2^-22 (about two
+   float32 ulp at 1).  Vertex words and every other byte must be identical. *)
+Definition word_val (w : word) : Z :=          (* value in units of 2^-149 *)
+  let m := if expo_of w =? 0 then mant_of w else N.shiftl (2 ^ 23 + mant_of w) (expo_of w - 1) in
+  if sign_of w then (- Z.of_N m)%Z else Z.of_N m.
 Definition word_close (w1 w2 : word) : bool :=
   word_same w1 w2 ||
-  (Bool.eqb (sign_of w1) (sign_of w2) && negb (is_nan32 w1) && negb (is_nan32 w2) &&
-   ((w1 <=? w2 + 4) && (w2 <=? w1 + 4))) ||
-  ((w1 mod 0x80000000 =? 0) && (w2 mod 0x80000000 =? 0)).
+  (negb (expo_of w1 =? 255) && negb (expo_of w2 =? 255) &&
+   (Z.abs (word_val w1 - word_val w2) <=? 2 ^ 127)%Z).
 
 Section Agree.
   Variable cmp : word -> word -> bool.   (* comparison of Normal words *)
